@@ -157,36 +157,23 @@ impl NodeIdentity {
 
     /// Generate from seed (deterministic)
     pub fn from_seed(seed: &[u8; 32]) -> Result<Self> {
-        // Deterministically derive key material via HKDF-SHA3
+        // Deterministically derive the key-generation seed via HKDF-SHA3, then run the
+        // real ML-DSA-65 key generation on it so that the two keys form a key pair.
         use saorsa_pqc::{HkdfSha3_256, api::traits::Kdf};
 
-        // ML-DSA-65 public/secret key sizes (bytes)
-        const ML_DSA_PUB_LEN: usize = 1952;
-        const ML_DSA_SEC_LEN: usize = 4032;
-
-        let mut derived = vec![0u8; ML_DSA_PUB_LEN + ML_DSA_SEC_LEN];
-        HkdfSha3_256::derive(seed, None, b"saorsa-node-identity-seed", &mut derived).map_err(
+        let mut keygen_seed = [0u8; 32];
+        HkdfSha3_256::derive(seed, None, b"saorsa-node-identity-seed", &mut keygen_seed).map_err(
             |_| P2PError::Identity(IdentityError::InvalidFormat("HKDF expand failed".into())),
         )?;
 
-        let pub_bytes = &derived[..ML_DSA_PUB_LEN];
-        let sec_bytes = &derived[ML_DSA_PUB_LEN..];
-
-        // Construct keys from bytes; these constructors accept byte slices in our integration
-        let public_key =
-            crate::quantum_crypto::ant_quic_integration::MlDsaPublicKey::from_bytes(pub_bytes)
-                .map_err(|e| {
-                    P2PError::Identity(IdentityError::InvalidFormat(
-                        format!("Invalid ML-DSA public key bytes: {e}").into(),
-                    ))
-                })?;
-        let secret_key =
-            crate::quantum_crypto::ant_quic_integration::MlDsaSecretKey::from_bytes(sec_bytes)
-                .map_err(|e| {
-                    P2PError::Identity(IdentityError::InvalidFormat(
-                        format!("Invalid ML-DSA secret key bytes: {e}").into(),
-                    ))
-                })?;
+        let keypair =
+            crate::quantum_crypto::ant_quic_integration::ml_dsa_keypair_from_seed(&keygen_seed);
+        keygen_seed.fill(0);
+        let (public_key, secret_key) = keypair.map_err(|e| {
+            P2PError::Identity(IdentityError::InvalidFormat(
+                format!("Failed to generate ML-DSA key pair from seed: {e}").into(),
+            ))
+        })?;
 
         let node_id = NodeId::from_public_key(&public_key);
 
